@@ -24,6 +24,9 @@ type Case struct {
 	Fetch   []string            `json:"fetch"` // paths that must be fetched successfully (sorted set)
 	Label   string              `json:"label"`
 	Canary  bool                `json:"canary"` // a real file exists at {{CANARY}}; its content must never appear
+	Globals map[string]string   `json:"globals,omitempty"`
+	// AddLater: only the first loader is given to NewSet, the others are added with AddLoader
+	AddLater bool `json:"add_later,omitempty"`
 }
 
 func (c *Case) ID() string {
@@ -47,6 +50,12 @@ func (c *Case) ID() string {
 	}
 	sort.Strings(vs)
 	b.WriteString(" vars=" + strings.Join(vs, ","))
+	if len(c.Globals) > 0 {
+		b.WriteString(fmt.Sprint(" globals=", c.Globals))
+	}
+	if c.AddLater {
+		b.WriteString(" loaders-added-later")
+	}
 	return b.String()
 }
 
@@ -80,6 +89,13 @@ func (c *Case) Exec(t *eng.T) {
 		tl = append(tl, l)
 	}
 	set := pongo2.NewSet("c11", tl...)
+	if c.AddLater && len(tl) > 1 {
+		set = pongo2.NewSet("c11", tl[0])
+		set.AddLoader(tl[1:]...)
+	}
+	for k, v := range c.Globals {
+		set.Globals[k] = v
+	}
 	ctx := pongo2.Context{"v": "ctxv", "fail": func() (string, error) { return "", fmt.Errorf("boom") }}
 	for k, v := range c.Vars {
 		ctx[k] = subst(v)
@@ -261,7 +277,7 @@ func run(r *eng.Runner) {
 	targets := []string{"/a", "/d/b", "/d/e/c", "/x/y"}
 
 	// ---- single references: kind x referrer x target x name form x loader configuration ----
-	r.Group("references", "c11.case", "every reference kind (12) x referrer location (3 directories) x target (4) x every name form reaching it (rooted, relative, ./, ../ detours) x 6 loader configurations {one loader; two loaders with the target only in the second; target in both (first wins); referrer in the second and target in the first; three loaders with the target only in the last; three loaders with the target in the second and third}")
+	r.Group("references", "c11.case", "every reference kind (12) x referrer location (3 directories) x target (4) x every name form reaching it (rooted, relative, ./, ../ detours) x 6 loader configurations {one loader; two loaders with the target only in the second; target in both (first wins); referrer in the second and target in the first; three loaders with the target only in the last; three loaders with the target in the second and third}; every multi-loader configuration built by NewSet(l1, l2, ..) and by NewSet(l1) + AddLoader(l2, ..)")
 	for _, k := range ks {
 		for _, ref := range referrers {
 			for _, tg := range targets {
@@ -295,6 +311,9 @@ func run(r *eng.Runner) {
 							vars["name"] = form
 						}
 						r.Do(&Case{Loaders: ls, Main: ref, Vars: vars, Want: eng.Q(k.out(marker)), Fetch: []string{ref, tg}, Label: k.name})
+						if len(ls) > 1 {
+							r.Do(&Case{Loaders: ls, Main: ref, Vars: vars, Want: eng.Q(k.out(marker)), Fetch: []string{ref, tg}, Label: k.name, AddLater: true})
+						}
 					}
 				}
 			}
@@ -405,6 +424,42 @@ func run(r *eng.Runner) {
 	}
 
 	// ---- rooted names: literal == computed ----
+	// what an included template sees
+	r.Group("include-visibility", "c11.case", "an included template (static and lazy name) sees the includer's variables - the innermost binding of with / set / for / macro parameter over the caller's context over the set's globals - plus the with pairs, and only the pairs when only is given: 16 includer shapes x 2 name forms")
+	{
+		inc := "[{{ v }}|{{ w }}|{{ x }}]"
+		type vis struct{ main, want string }
+		progs := []vis{
+			{`{% include NAME %}`, "[ctxv|ctxw|globx]"},
+			{`{% with v="with-v" %}{% include NAME %}{% endwith %}`, "[with-v|ctxw|globx]"},
+			{`{% with x="with-x" %}{% include NAME %}{% endwith %}{% include NAME %}`, "[ctxv|ctxw|with-x][ctxv|ctxw|globx]"},
+			{`{% set v = "set-v" %}{% include NAME %}`, "[set-v|ctxw|globx]"},
+			{`{% set x = "set-x" %}{% include NAME %}`, "[ctxv|ctxw|set-x]"},
+			{`{% for v in "ab" %}{% include NAME %}{% endfor %}`, "[a|ctxw|globx][b|ctxw|globx]"},
+			{`{% for x in "ab" %}{% include NAME %}{% endfor %}`, "[ctxv|ctxw|a][ctxv|ctxw|b]"},
+			{`{% macro m(v) %}{% include NAME %}{% endmacro %}{{ m("arg-v") }}`, "[arg-v|ctxw|globx]"},
+			{`{% include NAME with w="pair-w" %}`, "[ctxv|pair-w|globx]"},
+			{`{% with v="with-v" %}{% include NAME with w="pair-w" %}{% endwith %}`, "[with-v|pair-w|globx]"},
+			{`{% with v="with-v" %}{% include NAME with v="pair-v" %}{% endwith %}`, "[pair-v|ctxw|globx]"},
+			{`{% with v="with-v" %}{% include NAME with v="pair-v" only %}{% endwith %}{{ v }}`, "[pair-v||ONLYX]ctxv"},
+			{`{% include NAME with w=v only %}`, "[|ctxv|ONLYX]"},
+			{`{% with v="outer" %}{% with v="inner" %}{% include NAME %}{% endwith %}{% include NAME %}{% endwith %}`, "[inner|ctxw|globx][outer|ctxw|globx]"},
+			{`{% set v = "set-v" %}{% with v="with-v" %}{% include NAME %}{% endwith %}{% include NAME %}`, "[with-v|ctxw|globx][set-v|ctxw|globx]"},
+			{`{% include NAME with v="pair-v" %}{% include NAME %}`, "[pair-v|ctxw|globx][ctxv|ctxw|globx]"},
+		}
+		for i, p := range progs {
+			for _, nameForm := range []string{`"inc"`, `incname`} {
+				main := strings.ReplaceAll(p.main, "NAME", nameForm)
+				globals := map[string]string{"x": "globx"}
+				if strings.Contains(p.main, " only") {
+					globals = nil // whether the set's globals count as "the pairs only" is not judged here
+				}
+				want := strings.ReplaceAll(p.want, "ONLYX", "")
+				r.Do(&Case{Loaders: []map[string]string{{"/main": main, "/inc": inc}}, Main: "/main", Vars: map[string]string{"w": "ctxw", "incname": "inc"}, Globals: globals,
+					Want: eng.Q(want), Fetch: []string{"/main", "/inc"}, Label: fmt.Sprint("visibility", i)})
+			}
+		}
+	}
 	r.Group("literal-vs-computed", "c11.case", "a rooted name renders the same written as a literal and computed at run time, from every referrer location")
 	for _, ref := range referrers {
 		for _, tg := range targets[:3] {
@@ -428,6 +483,7 @@ func run(r *eng.Runner) {
 		}
 		r.Do(c)
 	}
+	runReal(r)
 }
 
 func init() {
